@@ -289,8 +289,8 @@ def _is_sorted_rebuild(func, depth: int = 0) -> tuple[bool, str]:
         if inspect.isfunction(target) and (target.__module__ or "").startswith("ampform"):
             ok, detail = _is_sorted_rebuild(target, depth + 1)
             return ok, f"{callee}: {detail}"
-    if callee.split(".")[-1] not in {"OrderedDict", "dict"} or len(call.args) != 1 or not isinstance(call.args[0], ast.ListComp):
-        return False, "does not build an (ordered) dict from a list comprehension"
+    if callee.split(".")[-1] not in {"OrderedDict", "dict"} or len(call.args) != 1 or not isinstance(call.args[0], (ast.ListComp, ast.GeneratorExp)):
+        return False, "does not build an (ordered) dict from a list comprehension / generator expression"
     comp = call.args[0]
     if len(comp.generators) != 1 or comp.generators[0].ifs:
         return False, "comprehension filters or nests"
@@ -317,6 +317,8 @@ def _is_sorted_rebuild(func, depth: int = 0) -> tuple[bool, str]:
         for st_ in stmts:
             if isinstance(st_, ast.Expr) and isinstance(st_.value, ast.Constant):
                 continue
+            if isinstance(st_, ast.FunctionDef) and st_.name not in {m, keys_name, "sorted", "dict", "OrderedDict", "collections"}:
+                continue  # a local helper definition (e.g. the sort key): defining it has no effect on m or on the key order
             if isinstance(st_, ast.If):
                 if any(isinstance(x, (ast.Call, ast.NamedExpr)) for x in ast.walk(st_.test)):
                     return f"branch condition {ast.unparse(st_.test)} calls something"
